@@ -18,6 +18,8 @@ def world_rich(rnd):
         {"name": "c4", "dynamic": False, "body": [{"k": "soft", "e": B("eq", F("a"), lit(2))}]},
         {"name": "c5", "dynamic": False, "body": [E({"k": "in", "e": F("b"), "items": [{"k": "l", "p": "nl"}], "neg": False})]},
         {"name": "c6", "dynamic": False, "body": [E(B("ge", {"k": "sum", "l": "l"}, F("a")))]},
+        # a SOFT constraint over the list sum: its solver nodes live outside the hard constraints of the set
+        {"name": "c7", "dynamic": False, "body": [{"k": "soft", "e": B("le", {"k": "sum", "l": "l"}, lit(4))}]},
         # a dynamic block: its body is elaborated at construction too (and may raise there)
         {"name": "dd", "dynamic": True, "body": [E(B("ne", F("a"), F("b"))), E(B("le", F("b"), lit(3)))]},
     ]
@@ -76,4 +78,30 @@ def family_F(tier, seed, n=None):
                 seen.add(o["o"])
             clean.append(o)
         out.append({"id": "F/%s/%d" % ("core" if core else "s%d" % seed, t), "world": world, "ops": clean, "tags": []})
+    return out
+
+
+def family_softlist(tier, seed, n=None):
+    """soft constraints whose expression is a list aggregate (sum / product) that no hard constraint shares: after a failing
+    call (with and without diagnostics) and after a faulted call the next call on the same object must work"""
+    out = []
+    n = n or (4 if tier == "quick" else 24)
+    for t in range(n):
+        rnd = random.Random(1660 + t + (seed if t >= n // 2 else 0) * 1000)
+        agg = "sum" if t % 2 == 0 else "prod"
+        fields = [fld("a", 2, False), fld("k", 2, False, rand=False, init=1),
+                  {"name": "l", "kind": "list", "w": 2, "signed": False, "rand": True, "init": [1, 1, 2], "cap": 4}]
+        blocks = [{"name": "c1", "dynamic": False, "body": [E(B("le", F("a"), lit(3))),
+                                                             {"k": "foreach", "l": "l", "v": "i", "it": True, "idx": False,
+                                                              "body": [E(B("gt", {"k": "it", "v": "i", "p": ""}, lit(0)))]}]},
+                  {"name": "c2", "dynamic": False, "body": [{"k": "soft", "e": B("eq", {"k": agg, "l": "l"}, lit(rnd.choice([3, 4, 6])))}]}]
+        world = {"classes": {"A": {"base": "", "cb": True, "fields": fields, "blocks": blocks}}, "population": [{"id": "o1", "cls": "A"}]}
+        unsat = wcall([E(B("lt", F("a"), F("a")))], "o1")
+        if t % 4 >= 2:
+            unsat["flags"] = {"solve_fail_debug": 1}
+        ops = [{"op": "construct", "o": "o1"}, {"op": "call", "call": mcall("o1")}, {"op": "call", "call": unsat}, {"op": "call", "call": mcall("o1")},
+               {"op": "call", "call": mcall("o1"), "fault": {"ph": "post", "o": "o1"}}, {"op": "call", "call": mcall("o1")},
+               {"op": "call", "call": unsat}, {"op": "call", "call": wcall([E(B("eq", {"k": "sub", "l": "l", "i": lit(0), "p": ""}, lit(3)))], "o1")},
+               {"op": "probe", "call": wcall([], "o1"), "paths": ["o1.a", "o1.l[0]", "o1.l[1]", "o1.l[2]"], "mode": "around", "nsol": 3, "cap": 100}]
+        out.append({"id": "F16/softlist/%s/%d" % (agg, t), "world": world, "ops": ops, "tags": []})
     return out
